@@ -273,9 +273,12 @@ pub fn decode(target: &str, data: &[u8]) -> Vec<(&'static str, Value)> {
                 terms.push((t.0, format!("{}-again", t.1)));
             }
             let absent = |r: &mut Reader, ids: &Vec<u32>| -> u32 {
-                let mut a = match r.u8() % 4 {
+                let mut a = match r.u8() % 8 {
                     0 => 10_000_000 + u32::from(r.u8()),
                     1 => u32::MAX - u32::from(r.u8() % 7),
+                    2 => 0,
+                    3 => 9_999_999,
+                    4 => 1 + u32::from(r.u8() % 3),
                     _ => r.u32() % 10_000_000,
                 };
                 while ids.contains(&a) {
